@@ -1036,7 +1036,8 @@ func (w *World) createArchetype(node *archNode, target Entity, forStorage bool) 
 // Returns all archetypes that match the given filter.
 func (w *World) getArchetypes(filter Filter) []*archetype {
 	if cached, ok := filter.(*CachedFilter); ok {
-		return w.filterCache.get(cached).Archetypes.pointers
+		// Return a copy: batch operations remove archetypes from the cache while iterating this list.
+		return append([]*archetype{}, w.filterCache.get(cached).Archetypes.pointers...)
 	}
 
 	arches := []*archetype{}
